@@ -14,6 +14,7 @@ func init() {
 			"LP-PIPE: one Process call per stage per record",
 			"LP-OFFLOAD provenance: a pipeline label filter is never offloaded as selector matcher",
 			"CH-MAP GetFloat kinds; LP-BUILD: a stage is not wrapped between its builder and the pipeline",
+			"label and line regexps with the same text stay different matchers; the engine evaluates every written filter stage",
 		},
 		NotDecided: []string{"strings.Contains(s, \"\") being true (library semantics)", "regexp engine semantics"},
 		Rules: func(r *Run) {
